@@ -151,15 +151,15 @@ def stepTI (s : St) (op : List String) (impl : String) : St × String :=
     | some w, some prompt =>
       if impl = "skipped-after-hang" then (s, s!"-\t-\t-") else
       let wd : Nat → Int := fun g => (s.w g : Int)
-      -- oracle: Draw terminates; while prompt + text + scrolloff fit and nothing was scrolled,
-      -- the cursor column is the width of the prompt plus the text before the cursor
+      -- oracle: Draw terminates; while prompt + text + scrolloff fit in the window, the cursor
+      -- column is the width of the prompt plus the text before the cursor
       let pw := widthOf s prompt
       let tw := widthOf s s.ed.text
       let fits := pw + tw + 4 < w
       let v (got : String) : String :=
         if got = "hang" then "FAIL draw_terminates: textinput.Draw does not return"
         else if got = "panic" then "FAIL draw panics"
-        else if fits ∧ s.ti.offset = 0 then verdictEq "cursor_column" got s!"col={pw + widthOf s (s.ed.text.take s.ed.cursor)}"
+        else if fits then verdictEq "cursor_column" got s!"col={pw + widthOf s (s.ed.text.take s.ed.cursor)}"
         else "ok"
       match TextInput.draw wd s.ti prompt w with
       | .hang => ({ s with dead := true }, s!"hang\t{impl}\t{v impl}")
